@@ -28,6 +28,7 @@ func runC02(c *Ctx) {
 	c02R3(c, "C02.R3")
 	c02R4(c, "C02.R4")
 	c02R5(c, "C02.R5")
+	c02R6(c, "C02.R6")
 }
 
 type c02Anchors struct {
@@ -353,6 +354,22 @@ func c02R2(c *Ctx, rule string) {
 			}
 		}
 		c.Check(ok2, rule, construct, c.at(i), "guarded by "+at, "payload of "+Expr(fr)+" is appended without a dominating test that its Seq equals the owed number: out-of-order bytes reach the reader")
+		// a closing frame's payload is random padding (closeStream fills it): it must never be appended
+		notClosing := false
+		for _, g := range AtomsAt(i) {
+			if g.Kind != "cmp" || g.Op != token.EQL {
+				continue
+			}
+			for _, pair := range [][2]ssa.Value{{g.X, g.Y}, {g.Y, g.X}} {
+				if k, isK := intConst(pair[1]); isK && k == 0 {
+					if x := a.frameOfField(pair[0], a.closing); x != nil && x == fr {
+						notClosing = true
+					}
+				}
+			}
+		}
+		c.Check(notClosing, rule, "closing frame's padding is not delivered: "+construct, c.at(i), "append guarded by Closing == closingNothing of the same frame",
+			"the payload of "+Expr(fr)+" is appended without a dominating test that the frame is not a closing frame: the closing notice's random padding reaches the reader as stream data")
 	})
 	if n == 0 {
 		c.Undecided(rule, "pipe writes in streamBuffer.Write", c.atFn(a.write), "none found")
